@@ -24,7 +24,7 @@ OPS = {  # snake_case client method -> API operation name
 # namedtuple / queue hops that no def-use chain crosses: (module, base name) -> (callee name, keyword)
 FIELD_HOPS = {
     ('processpool', 'download_file_request'): ('DownloadFileRequest', 'extra_args'),
-    ('processpool', 'job'): ('_submit_get_object_job', 'extra_args'),
+    ('processpool', 'job'): (('_submit_get_object_job', 'GetObjectJob'), 'extra_args'),
 }
 
 # processes fed through multiprocessing queues: the entry point of their requests
@@ -294,7 +294,7 @@ class KeyEval:
             if f.module is not mod:
                 continue
             for c in own_calls(f.node):
-                if (dotted(c.func) or '').split('.')[-1] == callee:
+                if (dotted(c.func) or '').split('.')[-1] in ((callee,) if isinstance(callee, str) else callee):
                     v = kwarg(c, kw)
                     if v is not None:
                         alts.append(self.keys(v, f, None, depth + 1))
@@ -360,6 +360,32 @@ class KeyEval:
             if isinstance(a, ast.For):
                 loop = a
                 break
+        if loop is not None and isinstance(loop.target, ast.Name) and isinstance(sl, ast.Name) and sl.id == loop.target.id:
+            # for k in L: if k [not] in X: d[k] = src[k]       (canonical form of {k: src[k] for k in L if k in X})
+            kv = loop.target.id
+            try:
+                L = set(self.const(loop.iter, func))
+                cur = (set(L), set(L), None)
+            except Unknown:
+                cur = self.keys(loop.iter, func, env, depth + 1)
+            for t, pol in [(t, pol) for t, pol in q.guards(store) if any(a is loop for a in ancestors(t))]:
+                if isinstance(t, ast.Compare) and len(t.ops) == 1 and isinstance(t.left, ast.Name) and t.left.id == kv and isinstance(t.ops[0], (ast.In, ast.NotIn)):
+                    try:
+                        o = set(self.const(t.comparators[0], func))
+                        other = (o, o, None)
+                    except Unknown:
+                        other = self.keys(t.comparators[0], func, env, depth + 1)
+                    if isinstance(t.ops[0], ast.In) == pol:
+                        cur = (cur[0] & other[0], cur[1] & other[1], cur[2] or other[2])
+                    else:
+                        cur = (cur[0] - other[1], cur[1] - other[0], cur[2] or other[2])
+                else:
+                    raise Unknown(f'guard {norm(t)} of {norm(store)} not modelled')
+            v = store.value
+            if isinstance(v, ast.Subscript) and isinstance(v.slice, ast.Name) and v.slice.id == kv:
+                o = self.keys(v.value, func, env, depth + 1)
+                cur = (cur[0] & o[0], cur[1] & o[1], cur[2] or o[2])
+            return cur
         if loop is None or not (isinstance(loop.iter, ast.Call) and isinstance(loop.iter.func, ast.Attribute) and loop.iter.func.attr == 'items'):
             raise Unknown(f'store {norm(store)} is not in a `for k, v in X.items()` loop')
         may, must, ent = self.keys(loop.iter.func.value, func, env, depth + 1)
